@@ -76,3 +76,6 @@ package types
 //@   ensures #spec result == tyEqObj(x, y)
 //@   ensures #memo result ==> forall(p, forall(q, inPP(inProcess, p, q) ==> old(inPP(inProcess, p, q)) || tyEq(p, q)))
 //@   ensures #mono forall(p, forall(q, old(inPP(inProcess, p, q)) ==> inPP(inProcess, p, q)))
+
+//@ entry Infer
+//@   props C12
